@@ -77,7 +77,45 @@ ORDER = {
     "src/sim/debug.rs": "C13",
     "src/err.rs": "C26 C04",
 }
+ORDER["src/os.asm"] = "C11 C12 C33 C10 C08 C13 C09 C27 C28 C31"
 ALL = [f"C{i:02d}" for i in range(1, 37)]
+
+# one-token changes of the OS image (assembly)
+OS_OPS = [
+    (r"\bBRzp\b", "BRp", "BRzp->BRp"),
+    (r"\bBRzp\b", "BRz", "BRzp->BRz"),
+    (r"\bBRnp\b", "BRp", "BRnp->BRp"),
+    (r"\bBRz\b", "BRnz", "BRz->BRnz"),
+    (r"\bBRn\b", "BRnz", "BRn->BRnz"),
+    (r"\bBRp\b", "BRzp", "BRp->BRzp"),
+    (r"\bBRnz\b", "BRn", "BRnz->BRn"),
+    (r"#-1\b", "#-2", "imm-1->-2"),
+    (r"#1\b", "#2", "imm1->2"),
+    (r"#0\b", "#1", "imm0->1"),
+    (r"\bR0\b", "R1", "R0->R1"),
+    (r"\bR1\b", "R0", "R1->R0"),
+    (r"\bR6\b", "R5", "R6->R5"),
+    (r"\bLDR\b", "LDI", None),
+    (r"\bSTI\b", "ST", "STI->ST"),
+    (r"\bLDI\b", "LD", "LDI->LD"),
+    (r"\bADD\b", "AND", "ADD->AND"),
+    (r"\bRTI\b", "RET", "RTI->RET"),
+]
+OS_OPS = [o for o in OS_OPS if o[2]]
+
+
+def os_candidates():
+    cands = []
+    rel = "src/os.asm"
+    lines = open(os.path.join(REPO, rel)).read().split("\n")
+    for ln, line in enumerate(lines):
+        code = line.split(";")[0]
+        if not code.strip() or code.strip().startswith("."):
+            continue
+        for rx, rep, name in OS_OPS:
+            for k, m in enumerate(re.finditer(rx, code)):
+                cands.append(dict(file=rel, line=ln + 1, op=name, occ=k, start=m.start(), end=m.end(), rep=rep, before=line.strip()))
+    return cands
 
 
 def candidates():
@@ -110,7 +148,7 @@ def candidates():
 
 
 def sample(n, seed):
-    c = candidates()
+    c = os_candidates() if seed >= 100 else candidates()
     rnd = random.Random(seed)
     # stratify: at most one mutant per (file, line) and shuffle
     rnd.shuffle(c)
@@ -161,7 +199,7 @@ def run_lane(lane, nlanes, n, seed):
     repo = f"{base}/repo"
     os.makedirs(base, exist_ok=True)
     for i, m in enumerate(muts):
-        if i % nlanes != lane or m["id"] in done:
+        if i % nlanes != lane % nlanes or m["id"] in done:
             continue
         sh(f"rsync -a --delete --exclude target --exclude .git {REPO}/ {repo}/")
         path = os.path.join(repo, m["file"])
